@@ -357,7 +357,14 @@ def gen_cdm(r, exact=False, contrast=None):
     shape = r.choice(SHAPES[3:] if not exact else [(1, 1), (2, 1), (1, 3), (3, 2), (2, 3), (4, 2), (3, 3)])
     n = r.randrange(1, 6) if not exact else r.choice([1, 1, 2, 2, 3])
     direction = r.choice(["parallel", "serial"])
+    # (measured: a line of one packet, an empty frame, t = 0 or all cross sections 0 leave the frame untouched -
+    #  keep those rare but present)
+    tlen = shape[0] if direction == "parallel" else shape[1]
+    if tlen == 1 and shape != (1, 1) and r.random() < 0.85:
+        direction = "serial" if direction == "parallel" else "parallel"
     fr, fk = gen_frame(r, shape, hi=r.choice([50, 2000, 60000]), bits=0)
+    if fk == "empty" and r.random() < 0.7:
+        fr, fk = gen_frame(r, shape, kind=r.choice(["random", "hot", "sparse"]), hi=r.choice([50, 2000, 60000]), bits=0)
     if contrast is None:
         contrast = r.random() < (0.25 if exact else 0.45)
     if contrast:
@@ -385,6 +392,8 @@ def gen_cdm(r, exact=False, contrast=None):
         else:
             p["tr"] = [r.choice([math.inf, 1.0e-9 * p["t"]]) for _ in range(n)]
             p["sigma"] = [r.choice([0.0, 1.0e5]) for _ in range(n)]
+            if not any(p["sigma"]) and r.random() < 0.8:
+                p["sigma"][r.randrange(n)] = 1.0e5
         p["slice"] = "general" if general else "ends"
         p["path"] = "func"
         if direction == "parallel" and r.random() < 0.3:
@@ -393,7 +402,8 @@ def gen_cdm(r, exact=False, contrast=None):
     p["beta"] = r.choice([0.0, 1.0, 0.3, 0.5, round(r.random(), 3)])
     p["fwc"] = float(r.choice([1000, 100000, 1e7, r.randrange(100, 200000)]))
     p["vg"] = r.choice([1e-10, 1e-7, 1e-12, 1.0, 10 ** r.uniform(-12, -6)])
-    p["t"] = r.choice([1e-3, 1e-5, 1.0, 10.0, 0.0, 10 ** r.uniform(-6, 1)])
+    p["t"] = r.choice([1e-3, 1e-5, 1.0, 10.0, 1e-2, 0.0, 10 ** r.uniform(-6, 1), 10 ** r.uniform(-4, 0),
+                       10 ** r.uniform(-4, 0), 10 ** r.uniform(-6, 1), 1e-3, 9.4722e-4])
     p["vth"] = 1.0e7
     p["tr"] = [10 ** r.uniform(-6, 1) for _ in range(n)]
     p["nt"] = [10 ** r.uniform(6, 12) if r.random() < 0.9 else 0.0 for _ in range(n)]
@@ -424,7 +434,7 @@ def gen_cdm(r, exact=False, contrast=None):
         p["fwc"], p["corner"] = 0.0, "fwc=0"
     elif k < 0.13:
         p["fwc"], p["beta"], p["corner"] = 0.0, 0.0, "fwc=0,beta=0"
-    elif k < 0.16:    # other values the wrapper must refuse
+    elif k < 0.19:    # other values the wrapper must refuse
         which = r.choice(["vg>1", "beta>1", "beta<0", "fwc>1e7", "t>10", "t<0", "vg<0"])
         p["corner"] = which
         if which == "vg>1":
@@ -898,6 +908,13 @@ def run(ctx: Ctx):
             ctx.dist("cdm_species", len(c["tr"]))
             ctx.dist("cdm_direction", c["direction"])
             ctx.dist("cdm_line_length", len(c["frame"]) if c["direction"] == "parallel" else len(c["frame"][0]))
+            if "lines_out" in o:
+                gain = any(fx(b) > fx(a) for li, lo in zip(o["lines_in"], o["lines_out"]) for a, b in zip(li, lo))
+                loss = any(fx(b) < fx(a) for li, lo in zip(o["lines_in"], o["lines_out"]) for a, b in zip(li, lo))
+                ctx.dist("cdm_effect", ("capture" if loss else "") + ("+release into a later packet" if gain else "")
+                         or "none")
+                ctx.dist("cdm_model_tie", "beta=1 exact factors" if c.get("exact") else
+                         "any beta, factor table" if "tbls" in o else "specification only")
         if c["kind"] == "collectp":
             ctx.dist("charge_held", c["held"])
         if c["kind"] == "fullwell" and c["path"] == "sources":
